@@ -342,7 +342,7 @@ def finding_key(job, reason, runner=None):
         # identity is the command (plus, for generated texts, the generator's label with numbers removed)
         ctx = "any"
         if job.gen.get("class", "").startswith(("grammar", "illformed", "mapfile")):
-            ctx = re.sub(r"\d+", "N", job.gen.get("label", job.gen.get("defect", job.gen["class"])))
+            ctx = re.split(r"[-:]", job.gen.get("label", job.gen.get("defect", job.gen["class"])))[0]    # nest / chain / many / literal / ...
         return "%s:%s:%s" % (reason, tv, ctx)
     name = "in_%06d.%s" % (job.jid, job.ext) if job.jid else None
     if reason == "ErrorDoesNotNameFile":
